@@ -222,3 +222,50 @@ pub fn judge(log: &IterLog, model: &[Item], plan: &IterPlan) -> Option<String> {
     }
     None
 }
+
+/// Drives an `extract_if` iterator: `steps` calls of next() (all, if negative), asking for size_hint() before every
+/// call, and after exhaustion two more next() calls (the iterators are fused). `n0` is the number of elements the
+/// collection held. The hints must be true bounds: never below what is still yielded (known once exhausted), never
+/// above the elements not yet yielded.
+pub fn drive_extract<I: Iterator>(it: &mut I, steps: i64, n0: usize) -> (Vec<I::Item>, Vec<String>) {
+    let mut got = Vec::new();
+    let mut hints = Vec::new();
+    let mut errs = Vec::new();
+    let mut exhausted = false;
+    let mut n = 0;
+    while steps < 0 || n < steps {
+        hints.push(it.size_hint());
+        match it.next() {
+            Some(x) => got.push(x),
+            None => {
+                exhausted = true;
+                break;
+            }
+        }
+        n += 1;
+    }
+    if exhausted {
+        for _ in 0..2 {
+            if let Some(x) = it.next() {
+                errs.push("next() returned an element after it had returned None".to_string());
+                got.push(x);
+            }
+        }
+    }
+    if !hints.is_empty() {
+        sim().probe(Probe::ExtractSizeHint);
+    }
+    for (i, (lo, hi)) in hints.iter().enumerate() {
+        let later = got.len().saturating_sub(i);
+        if hi.map_or(false, |h| h < later) {
+            errs.push(format!("size_hint() before call {i} was {:?}, but {later} more elements were yielded", (lo, hi)));
+        }
+        if exhausted && *lo > later {
+            errs.push(format!("size_hint() before call {i} promised at least {lo} elements, {later} were yielded"));
+        }
+        if hi.map_or(false, |h| h > n0.saturating_sub(i)) {
+            errs.push(format!("size_hint() before call {i} was {:?} with {} elements left in a collection of {n0}", (lo, hi), n0.saturating_sub(i)));
+        }
+    }
+    (got, errs)
+}
